@@ -1,8 +1,12 @@
 import Xo.Model.Hybrid
+import Xo.Lemmas.HybridOps
 /-! C18 — hybrid objects mirror their buffer data; copy/move keep value and ownership (property theorems only).
 One-step theorems about the model of `_FieldOfDressed.__get__/__set__`, `copy` and `move`, for every class universe, state and
-instance.  The invariant over whole histories (`Mirror`: every cached dressed child is the object the buffer data says is
-there) is checked by the oracle after every operation of every generated history: `_partial`. -/
+instance, and the invariant over whole histories: in every state reached from the empty one by constructor calls, attribute
+reads and writes, copies, moves and Python-attribute writes (`C18_mirror_history`) every cached dressed child is a valid
+instance and the dressed object cached for a NESTED field sits at the field's in-line location inside its container and
+cannot be moved on its own; for REFERENCE fields the attribute is validated against the buffer on every read
+(`C18_ref_get_mirrors`, every state). -/
 namespace Hyb
 
 theorem inst_setInst_same (s : St) (i : Nat) (x : Inst) (h : i < s.insts.length) : (s.setInst i x).inst i = x := by
@@ -77,7 +81,7 @@ theorem C18_ref_across_buffers_refused (u : Universe) (s : St) (i j : Nat) (py :
     (hk : fkind (clsOf u (s.inst i).cls) (xoName (clsOf u (s.inst i).cls) py) = some (.ref c'))
     (hb : (s.inst j).loc.buf ≠ (s.inst i).loc.buf) :
     hset u s i py (.dressed j) = (s, some .memory) := by
-  simp [hset, hk, hb]
+  simp [hset, hsetRef, hk, hb]
 
 /-- **reference in the same buffer shares**: the field now denotes the very object assigned (its location is stored in the
 buffer), that object is what the attribute returns, and it can no longer be moved -/
@@ -88,7 +92,7 @@ theorem C18_ref_shares (u : Universe) (s : St) (i j : Nat) (py : String) (c' : N
     let r := hset u s i py (.dressed j)
     r.2 = none ∧ (r.1.inst j).movable = false ∧ (r.1.inst j).loc = (s.inst j).loc ∧
     ((r.1.inst i).dressed.lookup (xoName (clsOf u (s.inst i).cls) py) = some j) := by
-  simp only [hset, hk, hb, bne_self_eq_false, Bool.false_eq_true, ↓reduceIte]
+  simp only [hset, hsetRef, hk, hb, bne_self_eq_false, Bool.false_eq_true, ↓reduceIte]
   refine ⟨trivial, ?_, ?_, ?_⟩
   · rw [inst_setInst_same _ _ _ (by rw [setInst_length]; exact hj)]
   · rw [inst_setInst_same _ _ _ (by rw [setInst_length]; exact hj)]
@@ -176,6 +180,50 @@ example :
     let s : St := { heap := h, insts := [⟨0, ⟨0, 0, []⟩, [], true, []⟩, ⟨0, ⟨1, 1, []⟩, [], true, []⟩, ⟨1, ⟨0, 2, []⟩, [], true, []⟩] }
     (hset u s 2 "inn" (.dressed 1)).2 = some .memory ∧ (hset u s 2 "inn" (.dressed 0)).2 = none ∧
     (hget u (hset u s 2 "inn" (.dressed 0)).1 2 "inn").2 = .inst 0 := by
+  decide
+
+/-- **the invariant over histories**: in every state reachable from the empty one by any sequence of operations (constructor
+calls with plain / dressed / None values, attribute reads and writes, copies, moves, Python attributes; operations naming
+instances that do not exist are no-ops), every cached dressed child is a valid instance, and the one cached for a nested
+(non-reference) field is at the field's in-line location in its container's buffer data and is not movable -/
+theorem C18_mirror_history (u : Universe) (ops : List Op) : Inv u (ops.foldl (step u) initSt) :=
+  history_inv u ops
+
+/-- **nested attribute = buffer data, in every reachable state**: the attribute of a nested field is a dressed object whose
+location IS the field's location inside the container (so its own attributes are read from, and written to, the container's
+buffer data), and that object refuses to move -/
+theorem C18_nested_get_mirrors (u : Universe) (ops : List Op) (i : Nat) (py : String) (c' : Nat) (j : Nat) :
+    let s := ops.foldl (step u) initSt
+    i < s.insts.length →
+    fkind (clsOf u (s.inst i).cls) (xoName (clsOf u (s.inst i).cls) py) = some (.nested c') →
+    (hget u s i py).2 = .inst j →
+    (s.inst j).loc = (s.inst i).loc.sub (xoName (clsOf u (s.inst i).cls) py) ∧ (s.inst j).movable = false ∧
+    (∀ dst, hmove u s j dst = (s, some .memory)) := by
+  intro s hi hk hg
+  have hinv : Inv u s := history_inv u ops
+  simp only [hget, hk] at hg
+  cases hd : (s.inst i).dressed.lookup (xoName (clsOf u (s.inst i).cls) py) with
+  | none =>
+    simp only [hd] at hg
+    split at hg <;> simp at hg
+  | some j' =>
+    simp only [hd] at hg
+    have hj : j' = j := by
+      first
+        | exact Got.inst.inj hg
+        | (split at hg <;> simp_all)
+    subst hj
+    obtain ⟨_, q2⟩ := hinv i hi _ j' (lookup_mem _ _ _ hd)
+    obtain ⟨r1, r2⟩ := q2 (by simp) ⟨c', hk⟩
+    exact ⟨r1, r2, fun dst => C18_move_refused u s j' dst (Or.inl r2)⟩
+
+/-! non-vacuity: after `top = Top(mid={...})` (nested Mid with a nested Leaf) and a move of `top`, the cached dressed `mid` is at
+the in-line location of the new allocation -/
+example :
+    let u : Universe := [{ fields := [("a", .num)], rename := [] }, { fields := [("leaf", .nested 0), ("k", .num)], rename := [] },
+                         { fields := [("mid", .nested 1)], rename := [] }]
+    let s := [Op.new 2 0 [], Op.move 0 1].foldl (step u) initSt
+    s.insts.length = 13 ∧ (hget u s 0 "mid").2 = .inst 10 ∧ (s.inst 10).loc = (s.inst 0).loc.sub "mid" ∧ (s.inst 0).loc.buf = 1 := by
   decide
 
 end Hyb
